@@ -39,6 +39,11 @@ Section AnyEngine.
     Den (S (S f)) (PGeom (VInt a) (VInt a) (AV (VInt m)) (VInt (Z.of_nat n)) 0) (Fin (ref_geom a m n)).
   Proof. exact (geom_den binop LMAX). Qed.
 
+  (* PSequence(list of scalars, repeats) = the list, repeats times (any values, rests included; the empty list ends at once) *)
+  Theorem C10_sequence : forall f (l : list val) (r : nat),
+    Den (S (S f)) (PSequence (AL (map AV l)) (AV (VInt (Z.of_nat r))) 0 0) (Fin (ref_sequence l r)).
+  Proof. exact (sequence_den binop LMAX). Qed.
+
   Theorem C10_constant : forall f c, Den (S f) (PConstant c) (Inf (fun _ => c)).
   Proof. exact (constant_den binop LMAX). Qed.
 
@@ -102,6 +107,7 @@ Section AnyEngine.
 End AnyEngine.
 Print Assumptions C10_series.
 Print Assumptions C10_range.
+Print Assumptions C10_sequence.
 Print Assumptions C10_stutter.
 Print Assumptions C10_pad.
 Print Assumptions C10_operator.
@@ -149,13 +155,13 @@ Proof. exact arp_permutation. Qed.
 Print Assumptions C10_arp_arrangement.
 Print Assumptions C10_arp_permutation.
 
-(* OPEN.  The remaining classes of Pat/Step.v have their reference definition in Pat/Ref.v (ref_sequence ref_loop
+(* OPEN.  The remaining classes of Pat/Step.v have their reference definition in Pat/Ref.v (ref_loop
    ref_pingpong ref_subsequence ref_reverse ref_pad_to_multiple ref_concatenate ref_collapse ref_norepeats_from
    ref_counter_from ref_impulse ref_wrap1) and are compared with the implementation on every run (reference
    interpreter of the harness + model comparison), but the induction is not done.  Full statement, e.g.:
      forall f c l count, l <> [] -> Den f c (Fin l) -> (0 < count)%nat ->
        Den (S (S f)) (PLoop (AP c) (VInt (Z.of_nat count)) 0 0 false []) (Fin (ref_loop count l))
-   and likewise Den (PSequence (AL (map AV l)) (AV (VInt r)) 0 0) (Fin (ref_sequence l r)), PPingPong, PSubsequence,
+   and likewise PPingPong, PSubsequence,
    PReverse, PPadToMultiple, PConcatenate, PCollapse, PNoRepeats, PCounter, PImpulse, PWrap, PReset.
    What is proved here is only that the closed forms and the model agree on one concrete instance of each. *)
 Definition outs (fuel n : nat) (e : pexpr) : list (outcome val) :=
